@@ -254,6 +254,12 @@ func (c *c07Ctx) judge(in *c07Input, o *c07Outcome, pkgDir string, outFile strin
 			r.Inconclusive("oracle-cannot-parse-source-file")
 			continue
 		}
+		if !ok && strings.HasPrefix(b.Message, "package uses multiple ffis") {
+			// a refusal of the package as a whole (C08: a package reaching two FFIs is refused) has no
+			// offending declaration; it is located at the package clause of a file of the package
+			r.Count("package_level_refusals", 1)
+			continue
+		}
 		if !ok {
 			r.Violate("error-src-outside-any-declaration", fmt.Sprintf("an error for %s is located at %s:%d:%d, inside no top-level declaration of that file: [%s] %s", in.ID, filepath.Base(b.SrcFile), b.Line, b.Col, b.Category, b.Message), detail())
 			continue
